@@ -30,6 +30,7 @@ var owners = map[string][]string{
 	"alloc+":      {"C06", "C19", "C03"},
 	"alloc-":      {"C06", "C03", "C19"}, // (C19: an Allocate success reports the lifetime actually in force)
 	"alloc~":      {"C06", "C03"},
+	"alloc.owner": {"C06", "C03", "C04", "C19"}, // the allocation of a 5-tuple has been replaced by another user's
 	"perm+":       {"C07", "C01", "C02", "C03", "C06"},
 	"perm-":       {"C07", "C03"},
 	"chan+":       {"C08", "C07", "C01", "C02", "C03", "C06"},
@@ -46,8 +47,8 @@ var owners = map[string][]string{
 	"resp.class":  {"C19"},
 	"resp.code":   {"C19"},
 	"resp.txid":   {"C19"},
-	"resp.mapped": {"C19"},
-	"resp.relay":  {"C19"},
+	"resp.mapped": {"C19", "C04"}, // (C04: an answer that names another 5-tuple's addresses)
+	"resp.relay":  {"C19", "C04"},
 	"resp.life":   {"C19", "C06"},
 	"resp.token":  {"C19"},
 	"bystander":   {"C04"},
@@ -225,7 +226,7 @@ func CompareState(ts []any, pr Proj, actor string, isAdvance bool) []Mismatch {
 			add(c, "alloc+", "the server has an allocation (user "+got.User+"), the spec has none")
 		case elive && got.Live:
 			if eu, _ := ea["user"].(string); eu != got.User {
-				add(c, "alloc~", fmt.Sprintf("owner: spec %s, server %s", eu, got.User))
+				add(c, "alloc.owner", fmt.Sprintf("owner: spec %s, server %s", eu, got.User))
 			}
 			if ef := toInt(ea["fam"]); ef != got.Fam {
 				add(c, "alloc~", fmt.Sprintf("family: spec %d, server %d", ef, got.Fam))
